@@ -274,7 +274,7 @@ def judge_restart(plan, result):
             end = min(p["dies"], p["killed"])
         return p["start"], end
 
-    ivs = sorted(interval(p) for p in procs.values())
+    ivs = sorted((interval(p) for p in procs.values()), key=lambda iv: iv[0])
     for (s1, e1), (s2, e2) in zip(ivs, ivs[1:]):
         if e1 is None or s2 < e1:
             return f"two children alive at once: lifetimes {ivs}"
